@@ -571,9 +571,9 @@ def uc_cli(text, ftext):
     import biom
     import biom.cli
     os.makedirs(SCRATCH, exist_ok=True)
-    inp = os.path.join(SCRATCH, "in.uc")
-    out = os.path.join(SCRATCH, "out.biom")
-    rep = os.path.join(SCRATCH, "rep.fna")
+    inp = os.path.join(SCRATCH, "in_%d.uc" % os.getpid())
+    out = os.path.join(SCRATCH, "out_%d.biom" % os.getpid())
+    rep = os.path.join(SCRATCH, "rep_%d.fna" % os.getpid())
     open(inp, "w").write(text)
     if os.path.exists(out):
         os.remove(out)
@@ -589,15 +589,16 @@ def uc_cli(text, ftext):
     finally:
         os.dup2(saved, 1)
         os.close(saved)
-    if r.exception is not None and not isinstance(r.exception, SystemExit):
-        raise r.exception
-    if r.exit_code != 0:
-        raise RuntimeError("from-uc exit code %s" % r.exit_code)
-    t = biom.load_table(out)
-    for p in (inp, out, rep):
-        if os.path.exists(p):
-            os.remove(p)
-    return t
+    try:
+        if r.exception is not None and not isinstance(r.exception, SystemExit):
+            raise r.exception
+        if r.exit_code != 0:
+            raise RuntimeError("from-uc exit code %s" % r.exit_code)
+        return biom.load_table(out)
+    finally:
+        for p in (inp, out, rep):
+            if os.path.exists(p):
+                os.remove(p)
 
 
 UC_SAMPLES = ["f1", "f2", "f3_a", "x", "S.1", "f1_b"]
@@ -834,6 +835,7 @@ def outside_domain(ctx, rng):
 def run(ctx):
     rng = ctx.rng
     quick = ctx.quick()
+    nw = max(1, getattr(ctx, "worker", (0, 1))[1])   # thorough runs are sharded: each worker does 1/nw of the totals
     os.makedirs(SCRATCH, exist_ok=True)
     ctx.rule = ("constructor: random grids (1..5 x 1..5 quick, up to 8x8 thorough; value classes count/dyadic/neg/"
                 "big/tiny/bits; 0/1 grids for bool) x every accepted input form (ndarray float/int/bool, 1-D vector, "
@@ -867,7 +869,7 @@ def run(ctx):
     shapes = [(1, 1), (1, 3), (3, 1), (2, 2), (2, 3), (3, 2), (4, 3), (3, 5), (5, 5), (1, 5), (5, 1), (4, 4)]
     class_sets = [("count",), ("smallcount",), ("count", "dyadic", "neg"), ("dyadic",), ("neg",),
                   ("big", "tiny"), ("bits",), ("count", "big", "bits")]
-    n_groups = 60 if quick else 1500
+    n_groups = 60 if quick else max(60, 3200 // nw)
     kept = []
     for g in range(n_groups):
         if g < len(shapes):
@@ -882,7 +884,7 @@ def run(ctx):
         G, obs, samp, encs = forms_group(ctx, rng, n, m, classes, full, alphabet="mixed" if g % 2 else "ascii")
         kept.append((G, obs, samp, encs))
     # 0/1 grids so that the bool dtype forms are exercised
-    for g in range(6 if quick else 200):
+    for g in range(6 if quick else max(6, 400 // nw)):
         n, m = rng.randint(1, 4), rng.randint(1, 4)
         G = [[Fraction(rng.choice([0, 1])) for _ in range(m)] for _ in range(n)]
         obs = core.gen_ids(rng, n, "O")
@@ -906,7 +908,7 @@ def run(ctx):
         return sum(1 for k in kinds if k.startswith("omd")) <= 1 and sum(1 for k in kinds if k.startswith("smd")) <= 1
     pairs = [p for p in pairs if compatible(p)]
     triples = [p for p in triples if compatible(p)]
-    budget = 3000 if quick else 60000
+    budget = 3000 if quick else max(3000, 120000 // nw)
     done = 0
     it = 0
     while done < budget:
@@ -930,7 +932,7 @@ def run(ctx):
     for lines in fixed_adj:
         for mode in ("list", "list_nl", "tuple", "str", "str_nl", "file"):
             run_adjacency(ctx, {"op": "adjacency", "lines": lines, "mode": mode}, ("adjacency", "fixed"))
-    for i in range(700 if quick else 20000):
+    for i in range(700 if quick else max(700, 48000 // nw)):
         lines = gen_adjacency(rng, odd=(i % 3 == 0))
         mode = rng.choice(["list", "list_nl", "tuple", "str", "str_nl", "file"])
         tags = ["adjacency"]
@@ -942,7 +944,7 @@ def run(ctx):
         run_adjacency(ctx, {"op": "adjacency", "lines": lines, "mode": mode}, tags)
 
     # ---- uc
-    for i in range(700 if quick else 20000):
+    for i in range(700 if quick else max(700, 48000 // nw)):
         lines, seeds = gen_uc(rng)
         tags = ["uc"]
         fasta = None
